@@ -168,6 +168,12 @@ func ptrVal(val reflect.Value) reflect.Value {
 	if val.Kind() == reflect.Ptr {
 		return val
 	}
+	if !val.CanAddr() {
+		// A value taken out of a Go map is not addressable; readers only need a pointer to a copy.
+		ptr := reflect.New(val.Type())
+		ptr.Elem().Set(val)
+		return ptr
+	}
 	return val.Addr()
 }
 
